@@ -49,9 +49,13 @@ def splits3(m, full):
                 yield (tuple(idx[:c1]), tuple(idx[c1:c2]), tuple(idx[c2:]))
 
 
-def histories(m, tier):
-    full2 = m <= (4 if tier == "quick" else 7)
-    full3 = m <= (3 if tier == "quick" else 5)
+def histories(m, tier, nev=0):
+    # thorough: exhaustive splits up to 5 (4) jobs for definitions with <= 5
+    # events; the 6-event definitions use the quick limits (an all-splits
+    # sweep of F_6 would need ~2 h on 16 cores)
+    deep = tier == "thorough" and nev <= 5
+    full2 = m <= (5 if deep else 4)
+    full3 = m <= (4 if deep else 3)
     out = []
     if m >= 2:
         out += list(splits2(m, full2))
@@ -129,7 +133,7 @@ def check_def(defn, tier):
             pvcommon.fingerprint(one["text"])
         memo = {}
         types_all = {t for j in jobs for _, t, _ in j}
-        for hi, hist in enumerate(histories(m, tier)):
+        for hi, hist in enumerate(histories(m, tier, len(dsl.event_names(defn)))):
             stats["histories"] += 1
             model = None
             last = None
